@@ -3,8 +3,10 @@
 (* parser.  Serves C01 (fidelity, strict iff no error), C02 (termination,   *)
 (* no bad control point), C06 (agreement).  One REPLAY line per input.      *)
 EXTENDS Deb822, Json
-CONSTANT N
-AllStrings == UNION {[1..n -> Class] : n \in 0..N}
+CONSTANT N,   \* all class strings up to this length
+         M    \* ... and all strings over the line-structure classes {K, C, R, N} (name, colon, CR, LF) up to this length
+LineClasses == {"K", "C", "R", "N"}
+AllStrings == UNION {[1..n -> Class] : n \in 0..N} \cup UNION {[1..n -> LineClasses] : n \in (N + 1)..M}
 MCCases == {[text |-> s] : s \in AllStrings}
 
 Emit == Done => PrintT(<<"REPLAY", ToJson([
